@@ -144,7 +144,14 @@ def one_dataset(obs, rng, conv, kw, spec):
     obs.cls('extent:checked')
     union = shapely.unary_union(live)
     want_bounds = union.bounds
-    if not isinstance(bounds, Failed):
+    # S-note of the design: invalid (bow-tie) cells are meant to be INTERIOR, so that "the extent of the remaining polygons"
+    # is unambiguous.  With holes around it a bow-tie cell can end up on the hull; its corner coordinates are still in
+    # the file, and whether the reported bounds should ignore them is not something the property decides: not asserted.
+    invalid_on_hull = any(not (want_bounds[0] <= x <= want_bounds[2] and want_bounds[1] <= y <= want_bounds[3])
+                          for n in invalid for x, y in model.cells[n])
+    if invalid_on_hull:
+        obs.cls('extent:invalid-cell-on-hull-bounds-not-asserted')
+    if not isinstance(bounds, Failed) and not invalid_on_hull:
         obs.expect(len(bounds) == 4 and all(abs(a - b) <= 1e-9 for a, b in zip(bounds, want_bounds)),
                    'bounds == bounding box of the cell polygons', lambda: {'got': bounds, 'want': want_bounds}, mech='bounds-wrong')
     if not isinstance(geometry, Failed):
